@@ -192,6 +192,27 @@ impl C08 {
                     rep.held("timing", hash_of(&(label, pos.open)), || json!({"unlock_instant": exp, "withdraw": label, "accepted": out.is_ok()}));
                 }
             }
+            // an unlocked position returns to its owner whatever the epoch manager says: with the
+            // genesis re-scheduled into the future there is no current epoch, and a plain
+            // withdrawal does not need one
+            w.restore(&after_close);
+            let t = exp.max(w.now()) + 1;
+            w.set_time(t);
+            let admin = w.owner.clone();
+            let c = w.em.clone();
+            let r = w.exec(&admin, &c, &mantra_dex_std::epoch_manager::ExecuteMsg::UpdateConfig { epoch_config: Some(mantra_dex_std::epoch_manager::EpochConfig { duration: cosmwasm_std::Uint64::new(w.cfg.epoch_duration), genesis_epoch: cosmwasm_std::Uint64::new(t + 10 * 86_400) }) }, &[]);
+            if r.is_ok() && fobserve(w).epoch.is_none() {
+                let b0 = w.balance(&owner, &lp);
+                let out = w.apply(&pos_op(&owner, PositionAction::Withdraw { identifier: cp.identifier.clone(), emergency_unlock: None }, vec![]));
+                let got = w.balance(&owner, &lp) - b0;
+                if !out.is_ok() {
+                    rep.failed("timing", None, format!("normal withdrawal of an unlocked position refused while the epoch manager reports no current epoch: {}", out.short()), witness(json!({"position": format!("{cp}"), "time": t})));
+                } else if got != cp.lp_asset.amount.u128() {
+                    rep.failed("exact_return", None, format!("withdrawal paid {got} of {}", cp.lp_asset.amount), witness(json!({"position": format!("{cp}")})));
+                } else {
+                    rep.held("timing", hash_of(&("no_current_epoch", pos.open)), || json!({"unlock_instant": exp, "withdraw": "after unlocking, while the epoch manager reports no current epoch", "accepted": true}));
+                }
+            }
         }
         w.restore(&snap);
     }
